@@ -66,7 +66,7 @@ func runC17(r *core.Run) {
 	rng := r.Rand
 	var evs []relEvent
 	errRep := map[string]bool{}
-	fns := []string{"row_number", "rank", "dense_rank", "cume_dist", "percent_rank", "ntile", "lag", "lead", "first_value", "last_value", "nth_value", "count", "sum", "min", "max"}
+	fns := []string{"row_number", "rank", "dense_rank", "cume_dist", "percent_rank", "ntile", "lag", "lead", "first_value", "last_value", "nth_value", "count", "sum", "min", "max", "listagg"}
 	for c := 0; c < ncase; c++ {
 		n := []int{1, 2, 3, 5, 9, 20, 60, 170, 330}[rng.Intn(9)]
 		// p: partition key (few values, NULLs, spellings), o: order key (ties, NULLs), v: value column
@@ -160,11 +160,17 @@ func runC17(r *core.Run) {
 				ign = true
 				call += " IGNORE NULLS"
 			}
+		case "listagg":
+			call = "LISTAGG(v, 'a')"
 		default:
 			call = strings.ToUpper(fn) + "(v)"
 			mkFrame([2]bound{{K: "ub"}, {K: "cur"}})
 		}
 		sql := fmt.Sprintf("SELECT id, %s OVER (%s%s) AS r, ROW_NUMBER() OVER (%s) AS rn FROM t", call, win, frame, win)
+		if fn == "listagg" {
+			// two calls that differ in the separator only (and only in its letter case): two columns, each with its own value
+			sql = fmt.Sprintf("SELECT id, LISTAGG(v, 'a') OVER (%s) AS r, ROW_NUMBER() OVER (%s) AS rn, LISTAGG(v, 'A') OVER (%s) AS r2 FROM t", win, win, win)
+		}
 		cpu := []int{1, 4, 8}[rng.Intn(3)]
 		x := newRelRun(r, cpu, t)
 		res, _, e := x.query(sql + ";")
@@ -192,9 +198,10 @@ func runC17(r *core.Run) {
 		}
 		// group by partition (harness-side key; TLC re-checks that each group is exactly a partition)
 		type ent struct {
-			idx int // 1-based row index in t
-			rn  int
-			val rcell
+			idx  int // 1-based row index in t
+			rn   int
+			val  rcell
+			val2 rcell
 		}
 		groups := map[string][]ent{}
 		var gorder []string
@@ -213,7 +220,11 @@ func runC17(r *core.Run) {
 			if _, ok := groups[k]; !ok {
 				gorder = append(gorder, k)
 			}
-			groups[k] = append(groups[k], ent{idx: id, rn: rn, val: row[1]})
+			en := ent{idx: id, rn: rn, val: row[1]}
+			if len(row) > 3 {
+				en.val2 = row[3]
+			}
+			groups[k] = append(groups[k], en)
 		}
 		if bad {
 			r.Violation(sig+":shape", sql+": id or ROW_NUMBER column is not what was selected", map[string]interface{}{"sql": sql})
@@ -227,9 +238,12 @@ func runC17(r *core.Run) {
 			var vals []map[string]interface{}
 			for _, e := range g {
 				ord = append(ord, e.idx)
-				v := map[string]interface{}{"i": 0, "num": 0, "den": 1, "t": e.val.T, "i2": 0}
+				v := map[string]interface{}{"i": 0, "num": 0, "den": 1, "t": e.val.T, "i2": 0, "t2": e.val2.T}
 				if e.val.N {
 					v["t"] = "NULL"
+				}
+				if e.val2.N {
+					v["t2"] = "NULL"
 				}
 				if f, err := strconv.ParseFloat(e.val.T, 64); err == nil && !e.val.N {
 					if f == math.Trunc(f) && math.Abs(f) < 1e9 {
